@@ -286,7 +286,44 @@ def single_defs(fn):
                     bad.add(el.id)
     for a in fn.args.args + fn.args.kwonlyargs:
         bad.add(a.arg) if a.arg in defs else None
-    return {k: v for k, v in defs.items() if k not in bad}
+    out = {k: v for k, v in defs.items() if k not in bad}
+    out.update(_clamp_defs(fn, bad, out))
+    return out
+
+
+def _clamp_defs(fn, twice, singles):
+    """the explicit spelling of a clamp --  `v = E1` followed, in the same block, by `if v < E2: v = E2` (or `if E2 > v`, `<=`, and the
+    mirror images for an upper bound) with no other definition of v -- defines v as max(E1, E2) (min for the upper bound)"""
+    out = {}
+    for blk_owner in ast.walk(fn):
+        for field in ('body', 'orelse', 'finalbody'):
+            blk = getattr(blk_owner, field, None)
+            if not isinstance(blk, list):
+                continue
+            for i, st in enumerate(blk[:-1]):
+                if not (isinstance(st, ast.Assign) and len(st.targets) == 1 and isinstance(st.targets[0], ast.Name)):
+                    continue
+                v = st.targets[0].id
+                nxt = blk[i + 1]
+                if not (isinstance(nxt, ast.If) and not nxt.orelse and len(nxt.body) == 1 and isinstance(nxt.body[0], ast.Assign)
+                        and len(nxt.body[0].targets) == 1 and isinstance(nxt.body[0].targets[0], ast.Name) and nxt.body[0].targets[0].id == v
+                        and isinstance(nxt.test, ast.Compare) and len(nxt.test.ops) == 1):
+                    continue
+                ndefs = sum(1 for x in ast.walk(fn) if isinstance(x, ast.Name) and x.id == v and isinstance(x.ctx, ast.Store))
+                if ndefs != 2 or v not in twice:
+                    continue
+                e2 = nxt.body[0].value
+                l, r, op = nxt.test.left, nxt.test.comparators[0], nxt.test.ops[0]
+                t2 = ast.unparse(e2)
+                kind = None
+                if isinstance(l, ast.Name) and l.id == v and ast.unparse(r) == t2:
+                    kind = 'max' if isinstance(op, (ast.Lt, ast.LtE)) else 'min' if isinstance(op, (ast.Gt, ast.GtE)) else None
+                elif isinstance(r, ast.Name) and r.id == v and ast.unparse(l) == t2:
+                    kind = 'max' if isinstance(op, (ast.Gt, ast.GtE)) else 'min' if isinstance(op, (ast.Lt, ast.LtE)) else None
+                if kind and not any(isinstance(x, ast.Name) and x.id == v for x in ast.walk(st.value)):
+                    out[v] = ast.copy_location(ast.Call(func=ast.Name(kind, ast.Load()), args=[st.value, e2], keywords=[]), st)
+                    ast.fix_missing_locations(out[v])
+    return out
 
 
 OPS = {ast.Lt: '<', ast.LtE: '<=', ast.Gt: '>', ast.GtE: '>=', ast.Eq: '==', ast.NotEq: '!=',
